@@ -9,6 +9,13 @@ results.tsv: Cxx-n <TAB> check <TAB> CAUGHT|MISSED|INCONCLUSIVE <TAB> keys   (wr
 import json, os, re, shutil, sys
 
 root = '/verif/seeded'
+# the three changes that touch agent/consul: relevant subsets of that package's tests, run by the coordinator
+# on a worktree with the patch applied (the whole package takes > 20 min and has wall-clock sensitive tests)
+EXTRA = {
+    'C09-2': "go test -run 'ACLResolver|ACL_|ResolveToken|TestACL' ./agent/consul/ : ok",
+    'C12-2': "go test -run 'TestCAManager|TestLeader_CA|TestConnectCA|TestLeader_Secondary|TestLeader_Vault|CARoot' ./agent/consul/ : all pass except TestConnectCA_ConfigurationSet_RootRotation_Secondary once under load; that test passes 4/4 with and 4/4 without the patch when run alone",
+    'C19-2': "go test -run 'Replicat' ./agent/consul/ : ok",
+}
 jobs = sys.argv[1]
 results = {}
 if len(sys.argv) > 2 and os.path.exists(sys.argv[2]):
@@ -69,6 +76,7 @@ for l in open(jobs):
             'scope_note': 'the existing tests were run for the touched packages, not the whole 21685-test suite',
         },
         'checks': results.get(sid, old.get('checks', {})),
+        **({'agent_consul_subset': EXTRA[sid]} if sid in EXTRA else {}),
         'checks_run_with': f"scripts/seedtest.sh seeded/{sid}/patch.diff quick {checks.strip()}",
     }
     json.dump(meta, open(f'{dst}/meta.json', 'w'), indent=1)
